@@ -134,7 +134,8 @@ fn eval(q: &Q, d: &D) -> bool {
 fn main() {
     let cases: u32 = std::env::args().nth(1).map(|s| s.parse().unwrap()).unwrap_or(300);
     let seed: u64 = std::env::args().nth(2).map(|s| s.parse().unwrap()).unwrap_or(1);
-    let docs = prop::collection::vec((prop::collection::vec(prop_oneof![4 => 0u8..3, 2 => 3u8..6, 1 => 6u8..8], 0..7), 0u64..30, 0u8..4), 0..160);
+    let big = std::env::var("BIG").is_ok();
+    let docs = (if big { prop_oneof![1 => 1000usize..1400, 1 => 4100usize..5200].boxed() } else { (0usize..160).boxed() }).prop_flat_map(|n| prop::collection::vec((prop::collection::vec(prop_oneof![4 => 0u8..3, 2 => 3u8..6, 1 => 6u8..8], 0..7), 0u64..30, 0u8..4), n..n + 1));
     let strat = (docs, prop::collection::vec(0usize..1000, 0..4), prop::collection::vec(0usize..1000, 0..12), prop::collection::vec(qstrat(), 1..12), any::<bool>());
     let cfg = Config { cases, rng_seed: RngSeed::Fixed(seed), failure_persistence: None, max_shrink_iters: 2000, ..Config::default() };
     let mut runner = TestRunner::new(cfg);
@@ -174,7 +175,7 @@ fn main() {
             let got: BTreeSet<u64> = searcher.search(&*tq, &DocSetCollector).map_err(|e| TestCaseError::fail(format!("{e:?}")))?.into_iter().map(uid_of).collect();
             let cnt = searcher.search(&*tq, &Count).unwrap();
             let cnt2 = tq.count(&searcher).unwrap();
-            let top: BTreeSet<u64> = searcher.search(&*tq, &TopDocs::with_limit(1000).order_by_score()).unwrap().into_iter().map(|(_, a)| uid_of(a)).collect();
+            let top: BTreeSet<u64> = searcher.search(&*tq, &TopDocs::with_limit(1_000_000).order_by_score()).unwrap().into_iter().map(|(_, a)| uid_of(a)).collect();
             if !expected.is_empty() && expected.len() < model.len() - deleted.len() { nontriv.set(nontriv.get() + 1); }
             prop_assert!(got == expected, "DOCSET q={:?} expected={:?} got={:?}", q, expected, got);
             prop_assert!(cnt == expected.len(), "COUNT q={:?} expected={} got={}", q, expected.len(), cnt);
